@@ -14,7 +14,8 @@ chk.extra['rule'] = ('grammar-directed generator of whole .ff/.itp/.map/.mapping
                      'a file case is non-trivial if it has >= 2 top-level declarations of >= 2 kinds, or a fault was '
                      'injected (the real reader must raise); component cases (tokenizer, prefix/order, arity, weights, '
                      'macros) are non-trivial when they contain a brace, a prefix or explicit order, a "--" delimiter, '
-                     'a "!" marker or repeated target, a "$" respectively; distinct = distinct protocol line')
+                     'a "!" marker or repeated target, a "$" respectively; .itp files carry #ifdef pragmas, .map and .mapping files '
+                     'are generated against toy force fields and compared through the driver; distinct = distinct protocol line')
 quiet_vermouth_logs()
 TABLES = c13_extract.extract()
 chk.lean(['VermouthProps.C13', 'VermouthProps.C13Tables', 'VermouthProps.C13Maps'], 'driver_c13',
